@@ -453,7 +453,16 @@ func ExecConformance(c *Check, prop string, bins map[string]string, vs []Variant
 			}
 			respOf[s.ID][v.ID()] = canonResp(s.Result)
 		}
-		rej, err := ValidateBatch(c, m.Module, m.Config, schemaRaw, ok, m.Lines, Work(prop, "tlc-"+v.ID()))
+		// the schema the specification reads is the one of THIS variant (root names may differ)
+		vSchemaRaw := schemaRaw
+		if v.CustomRoots {
+			if _, raw, err := FetchSchema(bins[v.ID()]); err == nil {
+				vSchemaRaw = raw
+			} else {
+				Infra("schema of %s: %v", v.ID(), err)
+			}
+		}
+		rej, err := ValidateBatch(c, m.Module, m.Config, vSchemaRaw, ok, m.Lines, Work(prop, "tlc-"+v.ID()))
 		if err != nil {
 			Infra("trace validation (%s): %v", v.ID(), err)
 		}
@@ -467,7 +476,7 @@ func ExecConformance(c *Check, prop string, bins map[string]string, vs []Variant
 			again = append(again, rj.Scenario)
 		}
 		if m.DevConfig != "" && len(again) > 0 {
-			rej2, err := ValidateBatch(c, m.Module, m.DevConfig, schemaRaw, again, m.Lines, Work(prop, "tlcdev-"+v.ID()))
+			rej2, err := ValidateBatch(c, m.Module, m.DevConfig, vSchemaRaw, again, m.Lines, Work(prop, "tlcdev-"+v.ID()))
 			if err != nil {
 				Infra("trace validation, deviation config (%s): %v", v.ID(), err)
 			}
@@ -587,6 +596,41 @@ func MergeCorpus(prefix string) []*Scenario {
 	return out
 }
 
+// StressCorpus: objects (in a list and single) whose many concurrently resolved fields -
+// several of them non-null - all fail. Run ungated many times (races between a field
+// reporting its error and its siblings doing the same) and gated (the first-selected field
+// completes first / last). The reference demands exactly one error per failing field.
+func StressCorpus(prefix string, reps int) []*Scenario {
+	q := `{ as { sn guardedn kidn { id } s kid { id } b { bsn } } an { sn guardedn kidn { id } s } }`
+	plan := map[string]ur.Outcome{"as": {K: "list", N: 3}}
+	for _, p := range []string{"as.0", "as.1", "as.2", "an"} {
+		for _, f := range []string{"sn", "guardedn", "kidn", "s", "kid"} {
+			if p == "an" && f == "kid" {
+				continue
+			}
+			plan[p+"."+f] = ur.Outcome{K: "err"}
+		}
+	}
+	plan["as.1.b"] = ur.Outcome{K: "panic"}
+	var out []*Scenario
+	for i := 0; i < reps; i++ {
+		sc := CorpusScenario(fmt.Sprintf("%s-stress%d", prefix, i), q, nil)
+		sc.Plan = plan
+		switch i % 8 {
+		case 5:
+			sc.Sched = "fifo"
+		case 6:
+			sc.Sched = "lifo"
+		case 7:
+			sc.Sched = fmt.Sprintf("rand:%d", i)
+		default:
+			sc.Sched = "free" // ungated, but not subject to plan derivation
+		}
+		out = append(out, sc)
+	}
+	return out
+}
+
 // faultSuffix names the fault kinds of a plan that known findings are keyed by.
 func faultSuffix(s *Scenario) string {
 	for k, h := range s.DirPlan {
@@ -652,7 +696,11 @@ func canonResp(r *ur.Result) string {
 		copy(out[1:], sorted)
 	}
 	b, _ := json.Marshal(out)
-	return string(b)
+	res := string(b)
+	for _, r := range []string{"Query", "Mutation", "Subscription"} {
+		res = strings.ReplaceAll(res, `"Root`+r+`"`, `"`+r+`"`)
+	}
+	return res
 }
 
 // RejectKey classifies a rejected trace for known-findings matching.
